@@ -15,7 +15,7 @@ for pid in sys.argv[2:]:
                 meta[r.get("file")] = "%s: %s" % (r.get("where", ""), r.get("kind", ""))
         except Exception:
             pass
-    tag = "" if base == "refactors" else "2"
+    tag = base.replace("refactors", "")
     for d in sorted(glob.glob("/verif/%s/%s/r*.diff" % (base, pid))):
         name = "refactor%s-%s" % (tag, os.path.basename(d)[:-5])
         if name in names:
